@@ -31,6 +31,13 @@ def make_cases(rng, nbase):
         bases.append((g, t, v0, pg, pat))
         for w in c11.far_values(v0, t)[:2]:
             bases.append((g, t, w, pg, pat))
+    # tuples none of whose elements generates a check: the value is still evaluated (once)
+    for pat in ("(_, _)", "((_, _), _)"):
+        g = tgen.Gen(rng)
+        t = ("tuple", [("int", "i32"), ("int", "i32")]) if pat == "(_, _)" else ("tuple", [("tuple", [("int", "i32"), ("int", "i32")]), ("int", "i32")])
+        v0 = g.gen_val(t)
+        pg = tgen.PatGen(g, rng, root_is_ref=True)
+        bases.append((g, t, v0, pg, pat))
     for kind in c11.COMPOUND + ["wild"]:
         g = tgen.Gen(rng)
         t = g.gen_type(2, allow=(kind,)) if kind != "wild" else ("int", "i32")
